@@ -553,3 +553,36 @@ func sizeBytes(v interface{}) (n int64, ok bool) {
 	x *= mult[m[2]]
 	return x, true
 }
+
+// sectionFields lists every mapping- or sequence-valued node of the base
+// configuration at depth 1 and 2: the "missing section" operator removes each
+// of them, or writes it as `key: null`.
+func sectionFields(root interface{}) (out []field) {
+	top, ok := root.(yaml.MapSlice)
+	if !ok {
+		return nil
+	}
+	isSection := func(v interface{}) bool {
+		switch v.(type) {
+		case yaml.MapSlice, []interface{}:
+			return true
+		}
+		return false
+	}
+	vals := []mutValue{{Class: "section-missing", Missing: true}, {Class: "section-null", Value: nil}}
+	for _, it := range top {
+		if !isSection(it.Value) {
+			continue
+		}
+		p1 := cfgPath{key(fmt.Sprint(it.Key))}
+		out = append(out, field{Path: p1, Kind: "section", Values: vals})
+		if m, isMap := it.Value.(yaml.MapSlice); isMap {
+			for _, it2 := range m {
+				if isSection(it2.Value) {
+					out = append(out, field{Path: p1.child(key(fmt.Sprint(it2.Key))), Kind: "section", Values: vals})
+				}
+			}
+		}
+	}
+	return out
+}
